@@ -16,6 +16,7 @@ mod xmlre;
 mod policyre;
 mod fsprobe;
 mod fsatomic;
+mod fsmodel;
 
 type Log = Arc<Mutex<Vec<Value>>>;
 
@@ -418,6 +419,18 @@ fn main() {
             std::panic::set_hook(Box::new(|_| {}));
             let keys: Vec<String> = serde_json::from_str(&std::fs::read_to_string(&args[3]).expect("read")).expect("json");
             println!("{}", rt.block_on(fsprobe::locate(&args[2], &keys)));
+        }
+        "fsmodel" => {
+            // args: <scratch directory> <first seed> <histories> <steps>
+            std::panic::set_hook(Box::new(|_| {}));
+            drop(rt);
+            println!("{}", fsmodel::batch(&args[2], args[3].parse().unwrap(), args[4].parse().unwrap(), args[5].parse().unwrap()));
+        }
+        "fsprobes" => {
+            // args: <scratch directory> [<ranges.json>]
+            std::panic::set_hook(Box::new(|_| {}));
+            drop(rt);
+            println!("{}", fsmodel::probes(&args[2], args.get(3).map(|s| s.as_str())));
         }
         "fsatomic" => {
             // args: <scratch directory> <file.json = [scenario, ...]>   (own multi-thread runtime, real time)
